@@ -4,6 +4,9 @@ import json, os, subprocess, sys
 ROOT = os.path.dirname(os.path.dirname(os.path.abspath(__file__)))
 
 CLAIMED = {
+ "C07": ("exploration", "property-based testing (proptest): differential check of invariant_noise_budget against an exact big-integer evaluation of the definition on program-generated ciphertexts",
+         "Generated-input search: every fresh and every computed ciphertext of multiplication-heavy generated programs (budgets driven down to 0; 1..6 primes so every word count of the multi-precision norm/compose code runs; sizes up to 16; all levels) is measured twice - by the library and by an oracle that recomputes the phase from the secret key with naive per-prime convolutions, its own CRT and an exact centered infinity norm. Equality is exact, so any disagreement is a violation. Fresh budgets are compared with the deterministic lower bound, negate/add/sub/add_many with the stated relations, and decrypt with the exactly rounded phase outside a 2^-30 tie margin.",
+         "Trusted: BigU, refmath; the secret key is brought to coefficient form with the library's inverse NTT (checked to be ternary; NTT correctness is C09).", "DESIGN.md §6 C07"),
  "C02": ("exploration", "model-based property testing (proptest): generated operation programs executed next to a shadow plaintext-ring model, gated by a worst-case noise bound",
          "Generated-history search: programs of up to 12 (thorough 30) evaluator operations over a pool of fresh BFV/BGV ciphertexts; operands are chosen among those the shadow state says are well-typed, so unequal sizes (2..16), both representations, lower levels and unequal BGV correction factors arise by construction. After every step the result's metadata must match the shadow and, when the deterministic noise bound allows, its decryption must equal the program evaluated in Z_t[X]/(X^N+1) by a naive reference. A measured-noise channel reports (never as a violation) if the bound model is ever too tight.",
          "Trusted: shadow ring arithmetic (naive convolution), noise model DESIGN.md §4 with 2^6 margin; multiply_many is outside the statement's operation list and excluded.", "DESIGN.md §6 C02"),
